@@ -187,6 +187,37 @@ fn f64_3d(d: &mut Draw) -> Outcome {
             return Outcome::Fail { sig: name, msg: format!("differs from Rodrigues' formula by {:e} (tolerance {:e})", e, tol) };
         }
     }
+    // "maps every v": also a v whose largest component lies in the upper half of the top binade (above MAX/2, the others
+    // at most a tenth of MAX), turned through a small angle so that every quantity of Rodrigues' formula is a finite number
+    {
+        let ts = d.f64_slog(1e-3, 0.1);
+        let k = d.below(3);
+        let mut w = [0.0f64; 3];
+        for i in 0..3 {
+            w[i] = if i == k { f64::MAX * (0.5 + 0.05 * d.unit()) } else { f64::MAX * 0.1 * d.unit() } * if d.bool() { 1.0 } else { -1.0 };
+        }
+        d.note("small angle, top-binade vector", &(ts, w));
+        let wv = Vector3::from(w);
+        let wp = Point3::from_vec(wv);
+        let wantw = rodrigues(&a, ts.sin(), ts.cos(), &w);
+        let (sm3, sm4, sb3, sq): (Matrix3<f64>, Matrix4<f64>, Basis3<f64>, Quaternion<f64>) =
+            (Matrix3::from_axis_angle(axis, Rad(ts)), Matrix4::from_axis_angle(axis, Rad(ts)), Rotation3::from_axis_angle(axis, Rad(ts)), Rotation3::from_axis_angle(axis, Rad(ts)));
+        let tolw = 1e-12 * w[k].abs();
+        for (name, got) in [
+            ("matrix3-rodrigues-top-binade-f64", sm3 * wv),
+            ("matrix4-rodrigues-top-binade-f64", (sm4 * wv.extend(0.0)).truncate()),
+            ("basis3-rodrigues-top-binade-f64", sb3.rotate_vector(wv)),
+            ("quaternion-rodrigues-top-binade-f64", sq * wv),
+            ("quaternion-rotate_vector-top-binade-f64", sq.rotate_vector(wv)),
+            ("quaternion-rotate_point-top-binade-f64", sq.rotate_point(wp).to_vec()),
+            ("basis3-rotate_point-top-binade-f64", sb3.rotate_point(wp).to_vec()),
+        ] {
+            let e = (got.x - wantw[0]).abs().max((got.y - wantw[1]).abs()).max((got.z - wantw[2]).abs());
+            if !(e <= tolw) {
+                return Outcome::Fail { sig: name, msg: format!("a vector with a component above MAX/2, turned by {:e} rad: {:?}, Rodrigues' formula gives {:?}", ts, got, wantw) };
+            }
+        }
+    }
     // axis constructors (Rad and Deg)
     let refs = [rot_x(t.sin(), t.cos()), rot_y(t.sin(), t.cos()), rot_z(t.sin(), t.cos())];
     let ms: [Matrix3<f64>; 3] = if use_deg {
@@ -334,11 +365,11 @@ pub fn property() -> Property {
     add!("axis_angle-Q", "Q", exact_3d, 4000, 250_000, 48, &[("generic", 100)]);
     add!("from_angle_xyz-Q", "Q", exact_axes, 4000, 250_000, 24, &[("generic", 200)]);
     add!("from_angle_2d-Q", "Q", exact_2d, 4000, 250_000, 32, &[("generic", 200)]);
-    add!("axis_angle-f64", "f64", f64_3d, 6000, 400_000, 64, &[("rad", 200), ("deg", 200)]);
+    add!("axis_angle-f64", "f64", f64_3d, 6000, 400_000, 96, &[("rad", 200), ("deg", 200)]);
     add!("from_angle_2d-f64", "f64", f64_2d, 4000, 200_000, 16, &[("rad", 200), ("deg", 200)]);
     const INV: &[(&str, u32)] = &[("constructor-output", 100), ("2-to-12-factors", 100), ("13-to-300-factors", 100), ("301-to-2600-factors", 200)];
-    add!("invert_composed-f64", "f64", invert_composed_f64, 400, 20_000, 48, INV);
-    add!("invert_composed-f32", "f32", invert_composed_f32, 400, 20_000, 48, INV);
+    add!("invert_composed-f64", "f64", invert_composed_f64, 400, 20_000, 80, INV);
+    add!("invert_composed-f32", "f32", invert_composed_f32, 400, 20_000, 80, INV);
     Property {
         id: "C06",
         title: "Angle and axis-angle constructors give proper right-handed rotations",
